@@ -330,9 +330,6 @@ def rule_r3(ck, prog, rule='C12.R3', cls='sdk::trace::ParentBasedSampler'):
             return (lab[2] if pol else not lab[2]) is want
         return pred
     dele = [p for p in g.calls('Sampler::ShouldSample')]
-    ok = len(dele) == 1 and g.must_pass_edge(dele[0], pred_edge('IsValid', False))
-    ck.verdict(ok, rule, f, 'delegate-only-without-valid-parent', dele[0].n if dele else None,
-               'root sampler consulted only on the invalid-parent edge' if ok else 'the root sampler is consulted for spans that have a valid parent (or never)')
     if dele:
         args = [strip_casts(f, a) for a in dele[0].n.get('args', [])]
         names = []
@@ -341,24 +338,98 @@ def rule_r3(ck, prog, rule='C12.R3', cls='sdk::trace::ParentBasedSampler'):
             names.append(sub[0].get('id') if sub else None)
         ok = names == [p['id'] for p in f.params]
         ck.verdict(ok, rule, f, 'delegate-gets-all-arguments', dele[0].n, 'all six arguments forwarded in order' if ok else 'the root sampler does not receive all six arguments in order')
-    rets = [r for r in g.returns() if r.n.get('e') is not None and f.nodes[r.n['e']]['k'] != 'call']
-    samp = [r for r in rets if _decision_of(f, r.n['e']) == 'RECORD_AND_SAMPLE']
-    drop = [r for r in rets if _decision_of(f, r.n['e']) == 'DROP']
-    other = [r for r in rets if r not in samp and r not in drop]
-    ok = len(samp) >= 1 and all(g.must_pass_edge(r, pred_edge('IsValid', True)) and g.must_pass_edge(r, pred_edge('IsSampled', True)) for r in samp)
-    ck.verdict(ok, rule, f, 'valid-sampled=>record-and-sample', samp[0].n if samp else None,
+    # ---- decision table over (parent valid, parent sampled): the two predicates are pinned and every path feasible under the pins is
+    # walked (conditional constant propagation); the decision of each reachable return is read off its first initialiser
+    from ..symb import explore_pinned, eval3 as _e3, T, F
+
+    def is_pred(n, method):
+        if n['k'] != 'call' or n.get('obj') is None:
+            return False
+        c = strip_targs(n.get('c', ''))
+        on = strip_casts(f, n['obj'])
+        direct = c.endswith('SpanContext::' + method) and on.get('id') == pid
+        via_flags = method == 'IsSampled' and c.endswith('TraceFlags::IsSampled') and on['k'] == 'call' and \
+            strip_targs(on.get('c', '')).endswith('SpanContext::trace_flags') and strip_casts(f, on['obj']).get('id') == pid
+        return direct or via_flags
+    valid_nodes = [n['i'] for n in f.nodes if is_pred(n, 'IsValid')]
+    sampled_nodes = [n['i'] for n in f.nodes if is_pred(n, 'IsSampled')]
+
+    def decision_under(e, env, pins, depth=3):
+        """set of Decision enumerators the first initialiser of the returned result can be"""
+        def val(idx, depth):
+            n = strip_casts(f, idx)
+            if n['k'] == 'ref' and n.get('sk') == 'enum':
+                return {n['qn'].rsplit('::', 1)[-1]}
+            if n['k'] == 'cond':
+                c = _e3(f, n['cnd'], env, pins)
+                if c is True:
+                    return val(n['a'], depth)
+                if c is False:
+                    return val(n['b'], depth)
+                return val(n['a'], depth) | val(n['b'], depth)
+            if n['k'] == 'ref' and n.get('sk') == 'local' and depth > 0:
+                out = set()
+                for m in f.nodes:
+                    if m['k'] == 'declstmt':
+                        for d in m['decls']:
+                            if d['id'] == n['id'] and d.get('init') is not None and d['init'] >= 0:
+                                out |= val(d['init'], depth - 1)
+                others = [m for m in f.nodes for (v, st, vx) in defs_in_node(f, m) if v == n['id'] and m['k'] != 'declstmt']
+                return out if out and not others else {'?'}
+            return {'?'}
+        en = strip_casts(f, e)
+        first = None
+        if en['k'] in ('construct', 'initlist', 'InitListExpr') and (en.get('args') or en.get('ch')):
+            first = (en.get('args') or en.get('ch'))[0]
+        if first is None:
+            for k in f.subtree(e):
+                if 'Decision' in (f.nodes[k].get('t') or '') and f.nodes[k]['k'] in ('ref', 'cond'):
+                    first = k
+                    break
+        return val(first, depth) if first is not None else {'?'}
+
+    def carries_parent_state(e):
+        return any(f.nodes[k]['k'] == 'call' and strip_targs(f.nodes[k].get('c', '')).endswith('SpanContext::trace_state') and
+                   strip_casts(f, f.nodes[k]['obj']).get('id') == pid for k in f.subtree(e))
+    table = {}
+    delegate_run = {}
+    for valid in (T, F):
+        for sampled in (T, F):
+            pins = {k: valid for k in valid_nodes}
+            pins.update({k: sampled for k in sampled_nodes})
+            rets_, seen = explore_pinned(g, pins, probes=[d.n['i'] for d in dele])
+            outs = set()
+            for (ri, _v, env) in rets_:
+                if ri is None:
+                    outs.add(('?', False))
+                    continue
+                e = f.nodes[ri]['e']
+                if any(f.nodes[k] is d.n for d in dele for k in f.subtree(e)):
+                    outs.add(('DELEGATE', True))
+                else:
+                    for dec in decision_under(e, dict(env), pins):
+                        outs.add((dec, carries_parent_state(e)))
+            table[(valid, sampled)] = outs
+            delegate_run[(valid, sampled)] = bool(seen)
+    have_preds = bool(valid_nodes) and bool(sampled_nodes)
+    ok = len(dele) == 1 and have_preds and delegate_run[(F, T)] and delegate_run[(F, F)] and not delegate_run[(T, T)] and not delegate_run[(T, F)]
+    ck.verdict(ok, rule, f, 'delegate-only-without-valid-parent', dele[0].n if dele else None,
+               'the root sampler is invoked exactly on the paths feasible for an invalid parent' if ok else 'the root sampler is consulted for spans that have a valid parent (or never)')
+    ok = have_preds and table[(F, T)] == {('DELEGATE', True)} and table[(F, F)] == {('DELEGATE', True)}
+    ck.verdict(ok, rule, f, 'no-valid-parent=>root-sampler-decides', dele[0].n if dele else None,
+               'without a valid parent the result is the root sampler\'s, whatever the flags byte says' if ok else
+               'for an invalid parent context the result is not (only) the root sampler\'s: %s' % sorted(table[(F, T)] | table[(F, F)]))
+    ok = have_preds and {d for (d, _s) in table[(T, T)]} == {'RECORD_AND_SAMPLE'} and not delegate_run[(T, T)]
+    ck.verdict(ok, rule, f, 'valid-sampled=>record-and-sample', None,
                'RECORD_AND_SAMPLE exactly for a valid parent whose sampled predicate is true' if ok else
-               'RECORD_AND_SAMPLE is not decided by the parent\'s sampled predicate (IsSampled()): e.g. a comparison of the whole flags byte treats flags 0x03 as unsampled')
-    ok = len(drop) >= 1 and all(g.must_pass_edge(r, pred_edge('IsValid', True)) and g.must_pass_edge(r, pred_edge('IsSampled', False)) for r in drop)
-    ck.verdict(ok, rule, f, 'valid-unsampled=>drop', drop[0].n if drop else None,
-               'DROP exactly for a valid parent whose sampled predicate is false' if ok else 'DROP is not decided by the parent\'s sampled predicate being false')
-    ok = not other
-    for r in samp + drop:
-        ts = [f.nodes[i] for i in f.subtree(r.n['e']) if f.nodes[i]['k'] == 'call' and strip_targs(f.nodes[i].get('c', '')).endswith('SpanContext::trace_state')
-              and strip_casts(f, f.nodes[i]['obj']).get('id') == pid]
-        if not ts:
-            ok = False
-    ck.verdict(ok, rule, f, 'parent-trace-state-both-ways', (samp + drop)[0].n if samp + drop else None,
+               'for a valid, sampled parent the decision is %s%s (the sampled predicate IsSampled() has to decide; a comparison of the whole flags byte treats 0x03 as unsampled)' %
+               (sorted({d for (d, _s) in table[(T, T)]}), ', and the root sampler is invoked' if delegate_run[(T, T)] else ''))
+    ok = have_preds and {d for (d, _s) in table[(T, F)]} == {'DROP'} and not delegate_run[(T, F)]
+    ck.verdict(ok, rule, f, 'valid-unsampled=>drop', None,
+               'DROP exactly for a valid parent whose sampled predicate is false' if ok else
+               'for a valid, unsampled parent the decision is %s%s' % (sorted({d for (d, _s) in table[(T, F)]}), ', and the root sampler is invoked' if delegate_run[(T, F)] else ''))
+    ok = have_preds and all(st for (_d, st) in table[(T, T)] | table[(T, F)])
+    ck.verdict(ok, rule, f, 'parent-trace-state-both-ways', None,
                'both results carry the parent\'s trace state' if ok else 'a result for a valid parent does not carry the parent\'s trace state')
     for cname, dec in (('sdk::trace::AlwaysOnSampler', 'RECORD_AND_SAMPLE'), ('sdk::trace::AlwaysOffSampler', 'DROP')):
         r2 = prog.record(cname)
